@@ -5,6 +5,14 @@ import "time"
 var _ = time.Second
 
 func init() {
+	reg("C11", propCfg{
+		index: 11,
+		rule: "(a) bounded exhaustive: every string of length <= 3 (quick) / <= 4 (thorough; 5 for the name positions) over {a, Z, 1, ., -, _, /, \", *, &, {, }, space} in each of 22 grammar positions (parameter / service / tag / alias names; import path; function name and Go function; getter; type; value; constructor; call method; field name; decorator tag and method; @service, !tagged and !value arguments in constructor, field, call and decorator positions; meta pkg / container_type / container_constructor), 400 candidates per configuration on separate keys; (b) rapid: valid forms generated from the documented grammar (up to &\"a/b\".C.d.e{} shapes) with 0..2 character edits; (c) 80+ hand-enumerated documents for wrong YAML node kinds at schema positions, call and tag shapes, scope keywords, the creation-method rules, must_getter without getter, and the todo exemption; (d) rapid: generated configurations with 2..5 simultaneous grammar violations on different keys. Oracle: hand-written recursive recognisers (no regular expressions) for every position; accepted iff all recognised; the set of (key, attribute) pairs named by the diagnostics must equal the set the recognisers reject, all in one run. Non-trivial = the candidate is not a plain lowercase word, and every document of (c)/(d); distinct by hash of (position, string)",
+		assume: []string{
+			"node-kind confusion is limited to collection<->scalar and null (robust yaml.v3 semantics); scalars of another YAML type in string positions are not asserted",
+			"meta.imports targets: quoted targets match the grammar and are judged by the grammar only",
+		},
+	})
 	reg("C03", propCfg{
 		index: 3,
 		rule: "(a) bounded exhaustive: every string of length <= 3 (quick) / <= 5 (thorough) over {%, a, 1, ., -, (, ), \", space, é} as parameter value, and every string of length <= 3 as service argument and as decorator argument (batches of 400 candidates on separate keys); every name reachable in the alphabet is declared with one value of each literal type and `a` is also a registered function. Pass 1: the set of keys named by the token diagnostics must equal the set the reference pattern parser rejects (unbalanced %, unknown function, malformed token). Pass 2: the accepted candidates are compiled and every GetParam / injected argument is compared by Go type and value with the reference evaluation (%% -> %, reference keeps the type when it is the only chunk, several chunks concatenate the documented casts). (b) round trip: rapid Unicode strings (quotes, backslashes, newlines, control characters, BOM, bidi, astral runes) with every % doubled must evaluate to the original; the undoubled strings are checked for the verdict. (c) rapid chunk sequences over text, %%, references to parameters of every literal type and calls of env / envInt / todo / user functions with the environment variable set, unset, numeric and non-numeric, against the DI interpreter (errors must name the token). Non-trivial = the string contains at least one %; distinct by hash of (position, string)",
